@@ -10,6 +10,7 @@ import (
 	"github.com/ontio/ontology-crypto/ec"
 	"github.com/ontio/ontology-crypto/keypair"
 	"github.com/polynetwork/poly/common"
+	tp "github.com/polynetwork/poly/txnpool/proc"
 	"polyverif/internal/hx"
 )
 
@@ -20,13 +21,16 @@ type gov struct {
 }
 
 func init() {
-	for _, m := range []string{"approvals", "registry", "pool", "votes"} {
+	for _, m := range []string{"approvals", "registry", "pool", "votes", "admission"} {
 		mode := m
 		families["gov-"+mode] = func() hx.Family { return &gov{mode: mode} }
 	}
 }
 
-func (f *gov) Reset(r *hx.Run) { f.w = newWorld() }
+func (f *gov) Reset(r *hx.Run) {
+	f.w = newWorld()
+	tp.VerifResetPermitted()
+}
 
 func (f *gov) Exec(r *hx.Run, op []string) string { return f.w.exec(r, op) }
 
@@ -189,6 +193,8 @@ func (f *gov) Gen(r *hx.Run) {
 		f.genPool(s)
 	case "votes":
 		f.genVotes(s)
+	case "admission":
+		f.genAdmission(s)
 	}
 }
 
